@@ -8,6 +8,9 @@ package main
 
 import (
 	"bufio"
+	"io"
+	"log"
+	"net"
 	"encoding/json"
 	"errors"
 	"flag"
@@ -18,6 +21,7 @@ import (
 	"os"
 	"strconv"
 	"strings"
+	"sync"
 	"time"
 
 	"shanhu.io/g/aries"
@@ -59,10 +63,12 @@ type Dump struct {
 }
 
 type RouterOp struct {
-	Op string `json:"op"` // index | default | file | mfile | get | post | dir | dirsvc
-	M  string `json:"m,omitempty"`
-	P  string `json:"p,omitempty"`
-	H  int    `json:"h"` // < 1000: leaf tag; 1000+j: router j of the case
+	Op  string `json:"op"` // index | default | file | mfile | get | post | dir | dirsvc | jsoncall | call
+	M   string `json:"m,omitempty"`
+	P   string `json:"p,omitempty"`
+	H   int    `json:"h"`             // < 1000: leaf tag; 1000+j: router j of the case
+	Nil bool   `json:"nil,omitempty"` // register a nil handler (nil Func; nil Service for dirsvc)
+	E   string `json:"e,omitempty"`   // what the leaf returns: "" nil | notfound | internal | unauth | invalid | plain
 }
 
 type RouterDef struct {
@@ -114,6 +120,26 @@ type SegFind struct {
 	Exact string `json:"x"`
 }
 
+// Raw is one request as written on the wire.
+type Raw struct {
+	Method string  `json:"method"`
+	Target string  `json:"target"`
+	Host   *string `json:"host"` // Host header; null = not sent
+	P10    bool    `json:"p10,omitempty"`
+}
+
+// EObs is what came back for a Raw, and what aries saw on entry.
+type EObs struct {
+	Status  int      `json:"status"` // 0 = connection closed without a response
+	Reached bool     `json:"reached"`
+	Path    string   `json:"path"`
+	Segs    []string `json:"segs"`
+	IsDir   bool     `json:"isdir"`
+	Host    string   `json:"host"`
+	Tag     int      `json:"tag"`
+	Rel     string   `json:"rel"`
+}
+
 type HostSet struct {
 	H string `json:"h"`
 	F int    `json:"f"`
@@ -134,6 +160,7 @@ type Obs struct {
 	Status int       `json:"status,omitempty"`
 	SFinds []SegFind `json:"sfinds,omitempty"`
 	Hosts  []int     `json:"hosts,omitempty"`
+	Entry  []EObs    `json:"entry,omitempty"`
 }
 
 type Case struct {
@@ -165,6 +192,9 @@ type Case struct {
 
 	HSets []HostSet `json:"hsets,omitempty"`
 	HReqs []string  `json:"hreqs,omitempty"`
+
+	HMux bool  `json:"hmux,omitempty"` // entry: a HostMux in front; hsets bind hosts to router F
+	Raws []Raw `json:"raws,omitempty"`
 
 	Obs *Obs `json:"obs,omitempty"`
 
@@ -239,7 +269,32 @@ func errName(err error) string {
 	if errcode.IsInvalidArg(err) && strings.Contains(err.Error(), "unsupported method") {
 		return "badmethod"
 	}
+	var le *leafErr
+	if errors.As(err, &le) {
+		return "e:" + le.class
+	}
 	return "other:" + err.Error()
+}
+
+// leafErr is what a leaf handler returns when told to fail.
+type leafErr struct{ class string }
+
+func (e *leafErr) Error() string { return "leaf error " + e.class }
+
+func leafError(class string) error {
+	switch class {
+	case "":
+		return nil
+	case "notfound":
+		return errcode.Add(errcode.NotFound, &leafErr{class})
+	case "internal":
+		return errcode.Add(errcode.Internal, &leafErr{class})
+	case "unauth":
+		return errcode.Add(errcode.Unauthorized, &leafErr{class})
+	case "invalid":
+		return errcode.Add(errcode.InvalidArg, &leafErr{class})
+	}
+	return &leafErr{class}
 }
 
 func dumpOf(d *aries.VerifTrieNode) *Dump {
@@ -362,61 +417,91 @@ type leafHit struct {
 	rel string
 }
 
-func runRouter(c *Case) {
-	o := &Obs{}
-	c.Obs = o
+// buildRouters makes the routers of a case; *hit receives the leaf that ran.
+func buildRouters(c *Case, hit **leafHit) ([]*aries.Router, [][]int) {
 	n := len(c.Routers)
 	routers := make([]*aries.Router, n)
 	for i := range routers {
 		routers[i] = aries.NewRouter()
 	}
-	var hit *leafHit
-	svc := func(h int) aries.Func {
+	svc := func(op *RouterOp) aries.Func {
+		if op.Nil {
+			return nil
+		}
+		h := op.H
 		if h >= 1000 && h-1000 < n {
 			return routers[h-1000].Serve
 		}
+		e := op.E
 		return func(cc *aries.C) error {
-			hit = &leafHit{tag: h, rel: cc.Rel()}
-			return nil
+			lh := &leafHit{tag: h, rel: cc.Rel()}
+			if hit != nil {
+				*hit = lh
+			} else {
+				cc.Data["leaf"] = lh // concurrent mode: nothing shared
+			}
+			return leafError(e)
 		}
 	}
-	o.ROks = make([][]int, n)
-	// build the deepest routers first is not needed: handlers are closures
+	roks := make([][]int, n)
 	for i, def := range c.Routers {
 		r := routers[i]
-		o.ROks[i] = []int{}
-		for _, op := range def.Ops {
+		roks[i] = []int{}
+		for j := range def.Ops {
+			op := &def.Ops[j]
 			var err error
 			p := guard(func() {
 				switch op.Op {
 				case "index":
-					r.Index(svc(op.H))
+					r.Index(svc(op))
 				case "default":
-					r.Default(svc(op.H))
+					r.Default(svc(op))
 				case "file":
-					err = r.File(op.P, svc(op.H))
+					err = r.File(op.P, svc(op))
 				case "mfile":
-					err = r.MethodFile(op.M, op.P, svc(op.H))
+					err = r.MethodFile(op.M, op.P, svc(op))
 				case "get":
-					err = r.Get(op.P, svc(op.H))
+					err = r.Get(op.P, svc(op))
 				case "post":
-					err = r.Post(op.P, svc(op.H))
+					err = r.Post(op.P, svc(op))
 				case "dirsvc":
-					err = r.DirService(op.P, svc(op.H))
+					if op.Nil {
+						err = r.DirService(op.P, nil)
+					} else {
+						err = r.DirService(op.P, svc(op))
+					}
 				case "dir":
-					err = r.Dir(op.P, svc(op.H))
+					err = r.Dir(op.P, svc(op))
+				case "jsoncall", "call":
+					// the reflective wrapper around func(*C) error
+					f := svc(op)
+					fn := func(cc *aries.C) error { return f(cc) }
+					if op.Op == "call" {
+						r.Call(op.P, fn)
+					} else {
+						err = r.JSONCall(op.P, fn)
+					}
 				}
 			})
 			switch {
 			case p != "":
-				o.ROks[i] = append(o.ROks[i], 2)
+				roks[i] = append(roks[i], 2)
 			case err != nil:
-				o.ROks[i] = append(o.ROks[i], 0)
+				roks[i] = append(roks[i], 0)
 			default:
-				o.ROks[i] = append(o.ROks[i], 1)
+				roks[i] = append(roks[i], 1)
 			}
 		}
 	}
+	return routers, roks
+}
+
+func runRouter(c *Case) {
+	o := &Obs{}
+	c.Obs = o
+	var hit *leafHit
+	routers, roks := buildRouters(c, &hit)
+	o.ROks = roks
 	for _, q := range c.Reqs {
 		hit = nil
 		req := &http.Request{
@@ -595,6 +680,198 @@ func runHost(c *Case) {
 	}
 }
 
+// runEntry serves the case with a real http.Server and writes the raw
+// requests on TCP connections.
+func runEntry(c *Case) {
+	o := &Obs{Entry: []EObs{}}
+	c.Obs = o
+	var hit *leafHit
+	routers, roks := buildRouters(c, &hit)
+	o.ROks = roks
+	var root aries.Service = routers[0]
+	if c.HMux {
+		hm := aries.NewHostMux()
+		for _, s := range c.HSets {
+			if s.F >= 0 && s.F < len(routers) {
+				hm.Set(s.H, routers[s.F])
+			}
+		}
+		root = hm
+	}
+	var cur *EObs
+	entry := aries.Func(func(cc *aries.C) error {
+		cur.Reached = true
+		cur.Path = lift(cc.Path)
+		cur.Segs = lifts(cc.RelRoute())
+		cur.IsDir = cc.PathIsDir()
+		cur.Host = lift(cc.Req.Host)
+		return root.Serve(cc)
+	})
+	srv := httptest.NewUnstartedServer(aries.Serve(entry))
+	srv.Config.ErrorLog = log.New(io.Discard, "", 0)
+	srv.Start()
+	defer srv.Close()
+	addr := srv.Listener.Addr().String()
+	for _, q := range c.Raws {
+		hit = nil
+		eo := EObs{Tag: -1, Segs: []string{}}
+		cur = &eo
+		var b strings.Builder
+		proto := "1.1"
+		if q.P10 {
+			proto = "1.0"
+		}
+		fmt.Fprintf(&b, "%s %s HTTP/%s\r\n", q.Method, q.Target, proto)
+		if q.Host != nil {
+			fmt.Fprintf(&b, "Host: %s\r\n", *q.Host)
+		}
+		if q.Method == "POST" {
+			b.WriteString("Content-Length: 0\r\n")
+		}
+		b.WriteString("Connection: close\r\n\r\n")
+		conn, err := net.DialTimeout("tcp", addr, 5*time.Second)
+		if err == nil {
+			conn.SetDeadline(time.Now().Add(10 * time.Second))
+			io.WriteString(conn, b.String())
+			resp, _ := io.ReadAll(conn)
+			conn.Close()
+			line := string(resp)
+			if i := strings.Index(line, "\r\n"); i >= 0 {
+				line = line[:i]
+			}
+			parts := strings.SplitN(line, " ", 3)
+			if len(parts) >= 2 {
+				eo.Status, _ = strconv.Atoi(parts[1])
+			}
+		}
+		if hit != nil {
+			eo.Tag = hit.tag
+			eo.Rel = lift(hit.rel)
+		}
+		if eo.Segs == nil {
+			eo.Segs = []string{}
+		}
+		o.Entry = append(o.Entry, eo)
+	}
+}
+
+// concCase builds the structure of a case once (registration finished), then
+// serves all its requests from several goroutines at once and compares with
+// the sequential answers. Built with -race, any write to the routing
+// structures while serving is reported by the race detector.
+func concCase(c *Case) bool {
+	const workers = 8
+	// the reference answers come from a separate, identically built structure,
+	// so that nothing is warmed up before the concurrent phase
+	refServe, nq := concBuild(c)
+	serve, _ := concBuild(c)
+	if serve == nil {
+		return true
+	}
+	want := make([]string, nq)
+	for q := 0; q < nq; q++ {
+		want[q] = refServe(q)
+	}
+	same := make([]bool, workers)
+	var wg sync.WaitGroup
+	for w := 0; w < workers; w++ {
+		wg.Add(1)
+		go func(w int) {
+			defer wg.Done()
+			ok := true
+			for rep := 0; rep < 3; rep++ {
+				for q := 0; q < nq; q++ {
+					if serve((q+w)%nq) != want[(q+w)%nq] {
+						ok = false
+					}
+				}
+			}
+			same[w] = ok
+		}(w)
+	}
+	wg.Wait()
+	for _, ok := range same {
+		if !ok {
+			return false
+		}
+	}
+	return true
+}
+
+func concBuild(c *Case) (serve func(q int) string, nq int) {
+	switch c.Kind {
+	case "mux":
+		m := aries.NewMux()
+		for _, op := range c.Ops {
+			tag := op.F
+			f := aries.Func(func(cc *aries.C) error { cc.Data["tag"] = tag; return nil })
+			guard(func() {
+				switch op.Op {
+				case "prefix":
+					m.Prefix(op.S, f)
+				case "exact":
+					m.Exact(op.S, f)
+				case "dir":
+					m.Dir(op.S, f)
+				}
+			})
+		}
+		nq = len(c.paths)
+		serve = func(q int) string {
+			cc := &aries.C{Path: c.paths[q], Data: make(map[string]interface{})}
+			if err := m.Serve(cc); err != nil {
+				return errName(err)
+			}
+			return strconv.Itoa(cc.Data["tag"].(int))
+		}
+	case "seg":
+		t := trie.New()
+		for _, a := range c.SAdds {
+			guard(func() { t.Add(append([]string{}, a.R...), a.V) })
+		}
+		nq = len(c.sq)
+		serve = func(q int) string {
+			m, v := t.Find(append([]string{}, c.sq[q]...))
+			return strconv.Itoa(len(m)) + ":" + v + ":" + t.FindExact(append([]string{}, c.sq[q]...))
+		}
+	case "router":
+		routers, _ := buildRouters(c, nil)
+		nq = len(c.Reqs)
+		serve = func(q int) string {
+			req := &http.Request{Method: c.Reqs[q].Method, URL: &url.URL{Path: c.Reqs[q].Path}, Host: "h", Header: make(http.Header)}
+			var err error
+			var cc *aries.C
+			if p := guard(func() {
+				cc = aries.NewContext(httptest.NewRecorder(), req)
+				err = routers[0].Serve(cc)
+			}); p != "" {
+				return "panic"
+			}
+			out := errName(err)
+			if lh, ok := cc.Data["leaf"].(*leafHit); ok {
+				out += ":" + strconv.Itoa(lh.tag) + ":" + lh.rel
+			}
+			return out
+		}
+	case "host":
+		m := aries.NewHostMux()
+		for _, s := range c.HSets {
+			tag := s.F
+			m.Set(s.H, aries.Func(func(cc *aries.C) error { cc.Data["tag"] = tag; return nil }))
+		}
+		nq = len(c.HReqs)
+		serve = func(q int) string {
+			req := &http.Request{Method: "GET", URL: &url.URL{Path: "/"}, Host: c.HReqs[q], Header: make(http.Header)}
+			cc := aries.NewContext(httptest.NewRecorder(), req)
+			if err := m.Serve(cc); err != nil {
+				return errName(err)
+			}
+			return strconv.Itoa(cc.Data["tag"].(int))
+		}
+	}
+	return serve, nq
+}
+
 func runCase(c *Case) {
 	switch c.Kind {
 	case "mux":
@@ -609,6 +886,8 @@ func runCase(c *Case) {
 		runTiers(c)
 	case "host":
 		runHost(c)
+	case "entry":
+		runEntry(c)
 	}
 }
 
@@ -674,6 +953,14 @@ func liftCase(c *Case) {
 		c.HSets[i].H = lift1(c.HSets[i].H)
 	}
 	c.HReqs = lifts1(c.HReqs)
+	for i := range c.Raws {
+		c.Raws[i].Method = lift1(c.Raws[i].Method)
+		c.Raws[i].Target = lift1(c.Raws[i].Target)
+		if c.Raws[i].Host != nil {
+			h := lift1(*c.Raws[i].Host)
+			c.Raws[i].Host = &h
+		}
+	}
 }
 
 // ------------------------------------------------------------- generation
@@ -695,6 +982,93 @@ func prefixOps(ss []string) []MuxOp {
 		ops[i] = MuxOp{Op: "prefix", S: s, F: i + 1}
 	}
 	return ops
+}
+
+// genRouterDefs makes 1-3 routers (later ones reachable as sub-routers).
+// rich adds what round 2 covers: failing leaves, nil handlers, the
+// JSONCall/Call wrappers.
+func genRouterDefs(r *hx.Rng, rich bool) []RouterDef {
+	nr := 1 + r.Intn(3)
+	var defs []RouterDef
+	tag := 1
+	for i := 0; i < nr; i++ {
+		var ops []RouterOp
+		k := r.Intn(6)
+		for j := 0; j < k; j++ {
+			d := 1 + r.Intn(3)
+			var sg []string
+			for x := 0; x < d; x++ {
+				sg = append(sg, []string{"a", "b"}[r.Intn(2)])
+			}
+			p := strings.Join(sg, "/")
+			switch r.Intn(6) {
+			case 0:
+				p = "/" + p
+			case 1:
+				p = p + "/"
+			case 2:
+				p = "/" + strings.Join(sg, "//") + "/"
+			}
+			if r.Intn(25) == 0 {
+				p = []string{"", "/", "//"}[r.Intn(3)]
+			}
+			h := tag
+			tag++
+			op := RouterOp{Op: "file", P: p, H: h}
+			switch r.Intn(5) {
+			case 0, 1:
+				op.Op = "dir"
+				if i+1 < nr && r.Intn(2) == 0 {
+					op.H = 1000 + i + 1 + r.Intn(nr-i-1)
+				}
+			case 2:
+				op.Op = "mfile"
+				op.M = []string{"GET", "POST", ""}[r.Intn(3)]
+				if op.M == "GET" && r.Bool() {
+					op.Op, op.M = "get", ""
+				} else if op.M == "POST" && r.Bool() {
+					op.Op, op.M = "post", ""
+				}
+			}
+			if op.Op == "dir" && r.Intn(4) == 0 {
+				op.Op = "dirsvc"
+			}
+			if rich {
+				if op.Op == "mfile" && op.M == "POST" && r.Bool() {
+					op.Op, op.M = []string{"jsoncall", "call"}[r.Intn(2)], ""
+				}
+				if op.H < 1000 && r.Intn(5) == 0 {
+					op.E = []string{"notfound", "internal", "unauth", "invalid", "plain"}[r.Intn(5)]
+				}
+				if r.Intn(20) == 0 && op.Op != "jsoncall" && op.Op != "call" {
+					op.Nil = true
+				}
+			}
+			ops = append(ops, op)
+		}
+		if r.Intn(2) == 0 {
+			ops = append(ops, RouterOp{Op: "index", H: tag, Nil: rich && r.Intn(12) == 0})
+			tag++
+		}
+		if r.Intn(3) == 0 {
+			h := tag
+			tag++
+			if i+1 < nr && r.Intn(4) == 0 {
+				h = 1000 + i + 1 + r.Intn(nr-i-1)
+			}
+			ops = append(ops, RouterOp{Op: "default", H: h, Nil: rich && r.Intn(12) == 0})
+		}
+		// shuffle (registration order must not matter)
+		for x := len(ops) - 1; x > 0; x-- {
+			y := r.Intn(x + 1)
+			ops[x], ops[y] = ops[y], ops[x]
+		}
+		if ops == nil {
+			ops = []RouterOp{}
+		}
+		defs = append(defs, RouterDef{Ops: ops})
+	}
+	return defs
 }
 
 func genCases(seed uint64, tier string) []Case {
@@ -730,6 +1104,56 @@ func genCases(seed uint64, tier string) []Case {
 			{"/books/xxx", "GET"}, {"/books/", "GET"}, {"/books", "GET"}, {"/bookss", "GET"}, {"", "GET"}, {"/", "GET"},
 			{"/sub", "GET"}, {"/sub/", "GET"}, {"/sub/f", "GET"}, {"/sub/f/", "GET"}, {"/sub/g", "GET"},
 			{"//sub//f", "GET"}, {"/books/x", "GET"}, {"/books/x/y", "GET"}, {"books/x", "GET"}}})
+
+	// round 2 corpus: the input of seeded change C20-c (ServeInternal, non-admin,
+	// path != "/", resource misses: nothing but the redirect may run) ...
+	for _, adm := range []string{"nil", "false"} {
+		add(Case{Stream: "corpus", Kind: "tiers", Internal: true, U0: "u", L0: 0, Path: "/x",
+			Auth: &AuthDef{Serve: Beh{Res: "miss"}}, IsAdmin: adm, SignIn: "ok",
+			Tiers: []Beh{{Res: "miss"}, {Res: "nil"}, {Res: "nil"}, {Res: "nil"}}})
+	}
+	// ... an admin through all three tiers with identity-preserving handlers ...
+	add(Case{Stream: "corpus", Kind: "tiers", Internal: true, U0: "adm", L0: 1, Path: "/x",
+		Auth: &AuthDef{Serve: Beh{Res: "miss"}}, IsAdmin: "nil", SignIn: "nil",
+		Tiers: []Beh{{Res: "miss"}, {Res: "miss"}, {Res: "miss"}, {Res: "nil"}}})
+	// ... nil handlers handed to the Router ...
+	add(Case{Stream: "corpus", Kind: "router",
+		Routers: []RouterDef{{Ops: []RouterOp{{Op: "file", P: "a", H: 1, Nil: true}, {Op: "dir", P: "b", H: 2, Nil: true},
+			{Op: "dirsvc", P: "c", H: 3, Nil: true}, {Op: "index", H: 4, Nil: true}, {Op: "file", P: "d", H: 5},
+			{Op: "call", P: "e", H: 6}, {Op: "call", P: "e", H: 7}, {Op: "jsoncall", P: "f", H: 8, E: "internal"}}}},
+		Reqs: []Req{{"/a", "GET"}, {"/b/x", "GET"}, {"/c", "GET"}, {"/", "GET"}, {"/d", "GET"}, {"/zzz", "GET"},
+			{"/e", "POST"}, {"/e", "GET"}, {"/f", "POST"}}})
+	add(Case{Stream: "corpus", Kind: "router",
+		Routers: []RouterDef{{Ops: []RouterOp{{Op: "default", H: 1, Nil: true}, {Op: "file", P: "a", H: 2}}}},
+		Reqs:    []Req{{"/q", "GET"}, {"/a", "GET"}, {"/a/", "GET"}}})
+	// ... and raw request lines: escapes, slashes, "*", CONNECT, absolute-form, hosts.
+	{
+		hp := func(s string) *string { return &s }
+		add(Case{Stream: "corpus", Kind: "entry", HMux: true,
+			HSets: []HostSet{{"shanhu.io", 0}, {"Shanhu.IO", 1}, {"shanhu.io:443", 1}, {"[::1]:8080", 1}, {"", 1}, {"abs.host:81", 1}},
+			Routers: []RouterDef{
+				{Ops: []RouterOp{{Op: "dir", P: "a", H: 1}, {Op: "file", P: "a/b", H: 2}, {Op: "index", H: 3}, {Op: "file", P: "*", H: 4},
+					{Op: "file", P: "..", H: 5}, {Op: "file", P: "e", H: 6, E: "unauth"}, {Op: "file", P: "i", H: 7, E: "internal"},
+					{Op: "file", P: "p", H: 8, E: "plain"}}},
+				{Ops: []RouterOp{{Op: "index", H: 20}, {Op: "default", H: 21}}},
+			},
+			Raws: []Raw{
+				{Method: "GET", Target: "/a%2Fb", Host: hp("shanhu.io")}, {Method: "GET", Target: "/a%2fb/", Host: hp("shanhu.io")},
+				{Method: "GET", Target: "/a/%2e%2e/b", Host: hp("shanhu.io")}, {Method: "GET", Target: "/%2e%2e", Host: hp("shanhu.io")},
+				{Method: "GET", Target: "//a//b", Host: hp("shanhu.io")}, {Method: "GET", Target: "/a/b/", Host: hp("shanhu.io")},
+				{Method: "GET", Target: "/a/b?x=/c", Host: hp("shanhu.io")}, {Method: "GET", Target: "/a/b#f", Host: hp("shanhu.io")},
+				{Method: "GET", Target: "/a%zz", Host: hp("shanhu.io")}, {Method: "GET", Target: "/a%2", Host: hp("shanhu.io")},
+				{Method: "GET", Target: "*", Host: hp("shanhu.io")}, {Method: "OPTIONS", Target: "*", Host: hp("shanhu.io")},
+				{Method: "CONNECT", Target: "shanhu.io:443", Host: hp("shanhu.io")}, {Method: "CONNECT", Target: "/a", Host: hp("shanhu.io")},
+				{Method: "GET", Target: "http://abs.host:81/a/b", Host: hp("shanhu.io")}, {Method: "GET", Target: "http://abs.host:81", Host: hp("shanhu.io")},
+				{Method: "GET", Target: "/", Host: hp("Shanhu.IO")}, {Method: "GET", Target: "/", Host: hp("SHANHU.IO")},
+				{Method: "GET", Target: "/", Host: hp("shanhu.io:443")}, {Method: "GET", Target: "/", Host: hp("shanhu.io.")},
+				{Method: "GET", Target: "/", Host: hp("[::1]:8080")}, {Method: "GET", Target: "/", Host: hp("[::1]")},
+				{Method: "GET", Target: "/", Host: hp("")}, {Method: "GET", Target: "/", P10: true}, {Method: "GET", Target: "/"},
+				{Method: "GET", Target: "/e", Host: hp("shanhu.io")}, {Method: "GET", Target: "/i", Host: hp("shanhu.io")},
+				{Method: "GET", Target: "/p", Host: hp("shanhu.io")}, {Method: "GET", Target: "a/b", Host: hp("shanhu.io")},
+			}})
+	}
 
 	// --- mux: all ordered prefix sets of size <= 2 (or 3) over {a,b,/}^{1..3}
 	N := len(smallPrefixes)
@@ -890,75 +1314,7 @@ func genCases(seed uint64, tier string) []Case {
 	}
 	reqPaths := allStrings("ab/", 0, 5)
 	for n := 0; n < nRouter; n++ {
-		nr := 1 + r.Intn(3)
-		var defs []RouterDef
-		tag := 1
-		for i := 0; i < nr; i++ {
-			var ops []RouterOp
-			k := r.Intn(6)
-			for j := 0; j < k; j++ {
-				d := 1 + r.Intn(3)
-				var sg []string
-				for x := 0; x < d; x++ {
-					sg = append(sg, []string{"a", "b"}[r.Intn(2)])
-				}
-				p := strings.Join(sg, "/")
-				switch r.Intn(6) {
-				case 0:
-					p = "/" + p
-				case 1:
-					p = p + "/"
-				case 2:
-					p = "/" + strings.Join(sg, "//") + "/"
-				}
-				if r.Intn(25) == 0 {
-					p = []string{"", "/", "//"}[r.Intn(3)]
-				}
-				h := tag
-				tag++
-				op := RouterOp{Op: "file", P: p, H: h}
-				switch r.Intn(5) {
-				case 0, 1:
-					op.Op = "dir"
-					if i+1 < nr && r.Intn(2) == 0 {
-						op.H = 1000 + i + 1 + r.Intn(nr-i-1)
-					}
-				case 2:
-					op.Op = "mfile"
-					op.M = []string{"GET", "POST", ""}[r.Intn(3)]
-					if op.M == "GET" && r.Bool() {
-						op.Op, op.M = "get", ""
-					} else if op.M == "POST" && r.Bool() {
-						op.Op, op.M = "post", ""
-					}
-				}
-				if op.Op == "dir" && r.Intn(4) == 0 {
-					op.Op = "dirsvc"
-				}
-				ops = append(ops, op)
-			}
-			if r.Intn(2) == 0 {
-				ops = append(ops, RouterOp{Op: "index", H: tag})
-				tag++
-			}
-			if r.Intn(3) == 0 {
-				h := tag
-				tag++
-				if i+1 < nr && r.Intn(4) == 0 {
-					h = 1000 + i + 1 + r.Intn(nr-i-1)
-				}
-				ops = append(ops, RouterOp{Op: "default", H: h})
-			}
-			// shuffle (registration order must not matter)
-			for x := len(ops) - 1; x > 0; x-- {
-				y := r.Intn(x + 1)
-				ops[x], ops[y] = ops[y], ops[x]
-			}
-			if ops == nil {
-				ops = []RouterOp{}
-			}
-			defs = append(defs, RouterDef{Ops: ops})
-		}
+		defs := genRouterDefs(r, false)
 		var reqs []Req
 		for i := 0; i < 14; i++ {
 			p := reqPaths[r.Intn(len(reqPaths))]
@@ -985,6 +1341,115 @@ func genCases(seed uint64, tier string) []Case {
 			continue
 		}
 		add(Case{Stream: "router", Kind: "router", Routers: defs, Reqs: reqs})
+	}
+
+	// --- round 2: failing leaves, nil handlers, JSONCall/Call
+	for n := 0; n < nRouter/4; n++ {
+		defs := genRouterDefs(r, true)
+		var reqs []Req
+		for i := 0; i < 12; i++ {
+			p := "/" + reqPaths[r.Intn(len(reqPaths))]
+			reqs = append(reqs, Req{Path: p, Method: []string{"GET", "POST", "POST"}[r.Intn(3)]})
+		}
+		add(Case{Stream: "router-rich", Kind: "router", Routers: defs, Reqs: reqs})
+	}
+
+	// --- round 2: raw request lines through a real http.Server: escapes,
+	// repeated/trailing slashes, "*", CONNECT, absolute-form, Host variants
+	pieces := []string{"a", "b", "a", "b", "/", "/", "/", "//", "%2F", "%2f", "%61", "%62", "%2e%2e", "..", ".", "%", "%2", "%zz", "%00",
+		"?x=/b", "#f", "*", "+", "%25", "a/b", "b/a"}
+	hostVals := []string{"shanhu.io", "Shanhu.IO", "shanhu.io:443", "shanhu.io.", "[::1]:8080", "[::1]", "h8liu.io", ""}
+	nEntry := nRouter / 5
+	for n := 0; n < nEntry; n++ {
+		defs := genRouterDefs(r, n%3 == 0)
+		c := Case{Stream: "entry", Kind: "entry", Routers: defs}
+		if r.Bool() {
+			c.HMux = true
+			c.Stream = "entry-host"
+			k := 1 + r.Intn(4)
+			for i := 0; i < k; i++ {
+				c.HSets = append(c.HSets, HostSet{H: pick(r, hostVals), F: r.Intn(len(defs))})
+			}
+		}
+		for i := 0; i < 12; i++ {
+			var t string
+			switch r.Intn(8) {
+			case 0:
+				t = "*"
+			case 1:
+				t = "http://" + pick(r, []string{"abs.host", "abs.host:81", "shanhu.io", "[::1]:8080"})
+			default:
+				t = "/"
+			}
+			if t != "*" && r.Bool() {
+				// a registered route of some router, written with other separators and escapes
+				var cand []string
+				for _, d := range defs {
+					for _, op := range d.Ops {
+						if op.P != "" {
+							cand = append(cand, op.P)
+						}
+					}
+				}
+				if len(cand) > 0 {
+					if !strings.HasSuffix(t, "/") {
+						t += "/"
+					}
+					var sg []string
+					for _, x := range strings.Split(pick(r, cand), "/") {
+						if x == "" {
+							continue
+						}
+						if r.Intn(4) == 0 {
+							x = strings.ReplaceAll(strings.ReplaceAll(x, "a", "%61"), "b", "%62")
+						}
+						sg = append(sg, x)
+					}
+					t += strings.Join(sg, pick(r, []string{"/", "/", "//", "%2F", "%2f"}))
+					switch r.Intn(5) {
+					case 0:
+						t += "/"
+					case 1:
+						t += "/" + pick(r, pieces)
+					case 2:
+						t += "?q=/x"
+					}
+				}
+			} else if t != "*" {
+				k := r.Intn(6)
+				if k > 0 && !strings.HasSuffix(t, "/") {
+					t += "/" // absolute-form: the authority ends here (its own syntax is net/url's business)
+				}
+				for x := 0; x < k; x++ {
+					t += pick(r, pieces)
+				}
+			}
+			q := Raw{Method: []string{"GET", "GET", "POST", "OPTIONS"}[r.Intn(4)], Target: t}
+			if r.Intn(16) == 0 {
+				q.Method = "CONNECT"
+				if r.Bool() {
+					q.Target = pick(r, []string{"shanhu.io:443", "h8liu.io:80", "[::1]:8080"})
+				}
+			}
+			switch r.Intn(10) {
+			case 0:
+				q.P10 = true // HTTP/1.0, maybe without Host
+				if r.Bool() {
+					h := pick(r, hostVals)
+					q.Host = &h
+				}
+			case 1:
+				// HTTP/1.1 without Host: net/http answers 400
+			default:
+				h := pick(r, hostVals)
+				if c.HMux && len(c.HSets) > 0 && r.Bool() {
+					h = c.HSets[r.Intn(len(c.HSets))].H
+				}
+				q.Host = &h
+			}
+			c.Raws = append(c.Raws, q)
+		}
+		add(c)
 	}
 
 	// --- tiers: every combination of (initial user, level, IsAdmin
@@ -1077,6 +1542,7 @@ func main() {
 	mem := flag.Uint64("mem", 3<<30, "address-space limit of the child")
 	sets := flag.Bool("sets", false, "print the shared path sets and exit")
 	runStdin := flag.Bool("run", false, "run the cases given as JSON lines on stdin (replay / shrinking)")
+	conc := flag.Int("conc", 0, "serve the first N mux/seg/router/host cases concurrently (build with -race)")
 	flag.Parse()
 
 	out := hx.NewOut(os.Stdout)
@@ -1105,6 +1571,27 @@ func main() {
 		return
 	}
 	cs := genCases(*seed, *tier)
+	if *conc > 0 {
+		per := map[string]int{}
+		for i := range cs {
+			c := &cs[i]
+			k := c.Kind
+			if k != "mux" && k != "seg" && k != "router" && k != "host" {
+				continue
+			}
+			if c.Stream == "mux-small" || c.Stream == "mux-triples" || c.Stream == "seg-small" || c.Stream == "seg-triples" {
+				k = c.Stream
+			}
+			if per[k] >= *conc {
+				continue
+			}
+			per[k]++
+			resolve(c)
+			same := concCase(c)
+			out.Emit(map[string]interface{}{"i": c.I, "stream": "conc", "kind": c.Kind, "from": c.Stream, "same": same})
+		}
+		return
+	}
 	if *child {
 		hx.LimitMemory(*mem)
 		for i := *from; i < len(cs); i++ {
